@@ -58,8 +58,12 @@ func checkC03(c *Ctx) {
 	checkReadyPlumbing(c) // includes: controller cache built with the builder's filter
 	m := newCacheModel(c)
 	m.checkDoSync() // "never regressing an object to an older version" is the found/EQ|GT rows
+	checkWatcherTable(c) // the watch restarts from a fresh buffer at every list (no stale frame of the old watch survives the relist)
+	checkWatcherAPI(c)
 	checkControllerDistribute(c)
 	checkListHelpers(c)
+	checkErrPropagation(c, "T-SHAPE(list-helpers)", "", "extractList", "meta.ExtractList")
+	checkBuilderFlows(c)
 	checkControllerAPI(c)
 	c.floor("T-TABLE(controller.run)", 14, "14 iteration paths + initial state")
 	c.floor("T-SHAPE(list-helpers)", 3, "executeList, listResourceVersion, extractList")
@@ -151,6 +155,8 @@ func checkC05(c *Ctx) {
 	checkEventPathSingleSender(c)
 	m := newCacheModel(c)
 	m.checkRunLoop() // reply after the handler ran
+	m.checkDoSync()  // third sentence: a subscriber never reads an older version than it was told about
+	m.checkDoUpdate()
 	checkControllerTable(c)
 	c.floor("T-TABLE(_subscription.run)", 4, "2 arms, defer close, send")
 	c.floor("T-TABLE(publisher.run)", 4, "event ok / closed (drained or not) / subscribe / unsubscribe")
@@ -178,11 +184,14 @@ func checkC12(c *Ctx) {
 	runs := findRunFuncs(c.P, rootRels)
 	c.check(len(runs) >= 9, "T-ONCE(ShutdownInitiated)", "run-functions", "-", fmt.Sprintf("%d run functions", len(runs)), fmt.Sprintf("found %d functions deferring ShutdownCompleted, hand-confirmed 9", len(runs)))
 	checkLifecycleOnce(c, runs)
-	sites := checkBlockingInventory(c, rootRels, runs, 60)
-	checkReplyChannels(c, rootRels)
+	rels := append(append([]string{}, rootRels...), typedRelsQuick(c)...)
+	sites := checkBlockingInventory(c, rels, runs, 60)
+	checkReplyChannels(c, rels)
 	kids := checkStopWiring(c)
 	checkJoinWaits(c, sites, runs, kids)
-	checkGoroutineInventory(c, rootRels, runs)
+	checkGoroutineInventory(c, rels, runs)
+	checkRunStartedOnce(c, runs)
+	checkBuilderFlows(c) // context cancellation can only stop what was built with the configured context
 	checkExternalCallContexts(c)
 	checkSessionFlows(c)
 	checkListGoroutines(c)
@@ -192,8 +201,12 @@ func checkC12(c *Ctx) {
 func checkC11(c *Ctx) {
 	checkStopWiring(c)
 	checkCloseForwarding(c, append([]string{"", "join"}, typedRelsQuick(c)...))
+	checkCloseOwners(c)
+	checkBuilderFlows(c)
 	checkSubscriptionLinearity(c)
 	checkOutchClosed(c)
+	checkJoinNoCloseOfParams(c) // closing or failing to build a join never closes what it was handed
+	checkJoinRelease(c)
 	checkSubscriptionTable(c)
 	checkFilterSubscriptionTable(c)
 	checkPublisherTable(c)
@@ -274,6 +287,9 @@ func checkC09(c *Ctx) {
 	checkJoinNoCloseOfParams(c)
 	checkFilterSubscriptionTable(c)
 	checkMonitorTable(c)
+	m := newCacheModel(c)
+	m.checkDoUpdate() // the join result's cache is a filtered-subscription cache: its step function is C01's
+	m.checkDoSync()
 	c.floor("T-FLOW(join)", 60, "8 joins x 8 obligations + 8 wrappers")
 }
 
@@ -293,6 +309,7 @@ func checkC20(c *Ctx) {
 		checkTypedMonitor(c, r)
 	}
 	checkTypedClients(c, typedRels(c))
+	checkErrPropagation(c, "T-SIBLING(NewClient)", "client", "makeResourceListFn$1", "rest.Request.Do")
 	c.floor("T-INSTANCE(typed)", 13, "12 typed packages")
 	c.floor("T-INSTANCE(join)", 9, "8 generated joins")
 	c.floor("T-SIBLING(NewClient)", 15, "12 clients + ForResource + 2 closures")
@@ -362,6 +379,7 @@ func checkC08(c *Ctx) {
 func checkC14(c *Ctx) {
 	checkControllerTable(c)
 	checkListHelpers(c)
+	checkErrPropagation(c, "T-SHAPE(list-helpers)", "", "extractList", "meta.ExtractList")
 	checkControllerAPI(c)
 	checkWatcherTable(c)
 	checkSessionTable(c)
